@@ -171,4 +171,8 @@ def render(doc: dict, fmt: dict | None = None) -> bytes:
         if fmt.get("blank_between") and m % 2:
             L.append(b"")
     L.append(b"")
+    if fmt.get("indent_lines"):
+        # leading blanks before a command are not part of it (every reader trims the line)
+        pad = [b"  ", b"\t", b" "]
+        L = [(pad[i % 3] + x if x and (fmt["indent_lines"] == "all" or i % 3 == 0) else x) for i, x in enumerate(L)]
     return nl.join(L)
